@@ -4,241 +4,275 @@ from __future__ import annotations
 import ast
 
 from .. import astutil as A
+from .. import sym as S
 from ..core import AnalysisError, Collector
-from .common import FnCtx, fnctx, has_guard, is_method_call, is_self_call
+from .common import FnCtx, SCtx, sctx
 from .c18 import handler_reraises
 
 PROP = "C09"
-FLOORS = {"C09.R1": 3, "C09.R2": 4, "C09.R3": 2, "C09.R4": 6, "C09.R5": 6}
+FLOORS = {"C09.R1": 3, "C09.R2": 5, "C09.R3": 3, "C09.R4": 5, "C09.R5": 6}
 META = {
-    "explanation": "Control skeleton of Optimize.solve: every normally returning path passes, after the last call that can move knobs "
-                   "(self.step), the test of the within-tolerance flag whose failing branch raises (guarded by assert_within_tol only); "
-                   "the enclosing handler catches Exception, reloads iteration 0 under restore_if_fail only, and re-raises on every path. "
-                   "Typestate of the flag: MeritFunctionForMatch.__call__ assigns last_point_within_tol on every normal path (it always "
-                   "describes the evaluation that just happened), True only under a universal test over |unweighted residual| < tol "
-                   "or-ed with the inactive mask, with the residual = transformed result - target value and no in-place rescaling "
-                   "between its definition and the test. reload writes every logged knob unconditionally and restores both kinds of "
-                   "active flags from the same log row.",
+    "explanation": "Control skeleton of Optimize.solve on its CFG (helpers inlined): every normally returning path passes, after the "
+                   "last call that can move knobs (self.step), a branch on which `not assert_within_tol or within tolerance` is known; "
+                   "the enclosing handler catches Exception, reloads iteration 0 under restore_if_fail only -- before anything else "
+                   "that can fail -- and re-raises on every path. Typestate of the flag: MeritFunctionForMatch.__call__ assigns "
+                   "last_point_within_tol on every normal path, and the solver's eval really calls the merit function on every path "
+                   "(the flag always describes the evaluation that just happened); it is True only under a universal test over "
+                   "|unweighted residual| < tol or-ed with the inactive mask. reload writes every logged knob unconditionally and "
+                   "directly, and restores both kinds of active flags from the same log row. Values are compared as symbolic terms.",
     "decides": "must-pass-through of the tolerance assertion, handler shape, flag freshness and provenance, reload completeness",
     "not_decided": "'within tolerance' as a numeric fact; bit-exactness of the restore",
     "assumptions": ["user actions signal failure only by returning the string 'failed' or by raising"],
 }
 
+OPT_KEEP = {"step", "solve", "reload", "add_point_to_log", "tag", "enable", "disable", "set_knobs_from_x", "log", "_clip_to_limits",
+            "_extract_knob_values", "_add_starting_point_to_log_and_print", "_print_end", "_knobs_to_x", "_x_to_knobs", "_clip_to_max_steps",
+            "_get_x_limits", "get_jacobian", "eval", "run", "clear_log", "run_jacobian", "run_simplex", "run_direct", "run_bfgs", "run_ls_trf",
+            "run_ls_dogbox", "run_l_bfgs_b", "set_x", "get_x", "_err", "target_status", "vary_status", "get_merit_function"}
+ERR = ("attr", S.SELF, "_err")
+FLAG = ("attr", ERR, "last_point_within_tol")
+LOG = S.sattr("_log")
+QUIET = ("_print", "print")
 
-def flag_attr(n) -> bool:
-    return isinstance(n, ast.Attribute) and n.attr == "last_point_within_tol"
+
+def octx(repo, cls: str, name: str) -> SCtx:
+    return sctx(repo, cls, name, keep=OPT_KEEP)
+
+
+def _is_quiet(t) -> bool:
+    """a call that cannot fail in a way that matters (printing / logging)"""
+    f = t[1]
+    root = f
+    while root[:1] == ("attr",):
+        root = root[1]
+    if f[:1] == ("glob",) and f[1] in ("type", "isinstance", "str", "repr", "len", "id", "bool", "hasattr", "format"):
+        return True     # pure builtins on values at hand
+    return root[:1] == ("glob",) and (root[1] in QUIET or root[1] in ("logger", "log", "logging", "_logger"))
+
+
+def _in_handler_nodes(sx: SCtx):
+    cfg = sx.cfg
+    hs = [n.id for n in cfg.nodes.values() if n.kind == "except"]
+    out = set()
+    for h in hs:
+        out |= cfg.reachable(h) | {h}
+    return hs, out
 
 
 def _solve(col):
     repo = col.repo
-    cx = fnctx(repo, "Optimize", "solve")
-    cfg = cx.cfg
+    sx = octx(repo, "Optimize", "solve")
+    cfg = sx.cfg
     q = "Optimize.solve"
-    steps = cx.call_nodes(lambda c: is_self_call(c, "step"))
+    steps = [ev.nid for ev, m in sx.calls_some(("call", ("attr", S.SELF, "step"), S.ANY, S.ANY))]
     if not steps:
-        col.fail("C09.R1", f"{q}#step", cx.loc(cx.fn), "solve performs its iterations through self.step", "no call")
-        return
-    # the asserting test: true branch raises
-    asserting = []
+        raise AnalysisError(f"{q}: no call of self.step -- cannot decide")
+    handlers, hnodes = _in_handler_nodes(sx)
+    ASSERT = S.sattr("assert_within_tol")
+    good = []
     for n in cfg.nodes.values():
-        if n.kind == "test" and any(flag_attr(x) for x in A.walk(n.ast)):
-            tb = [b.id for b in cfg.nodes.values() if b.kind == "T" and b.of == n.id][0]
-            reach = cfg.reachable(tb)
-            handlers_reach = [r for r in reach if cfg.nodes[r].kind == "except"]
-            raises_only = cfg.EXIT not in {r for r in cfg.reachable(tb, avoid=handlers_reach)}
-            if raises_only and any(isinstance(cfg.nodes[r].ast, ast.Raise) for r in reach if cfg.nodes[r].kind == "stmt"):
-                asserting.append(n)
-    ok = len(asserting) == 1
-    facts = f"{len(asserting)} tests of the flag whose true branch raises"
-    if ok:
-        t = asserting[0]
-        conj = t.ast.values if isinstance(t.ast, ast.BoolOp) and isinstance(t.ast.op, ast.And) else [t.ast]
-        txt = sorted(A.src(c) for c in conj)
-        shape = txt == sorted(["self.assert_within_tol", "not self._err.last_point_within_tol"])
-        fb = [b.id for b in cfg.nodes.values() if b.kind == "F" and b.of == t.id][0]
-        passes = all(cfg.must_pass(s, cfg.EXIT, [fb]) for s in steps)
-        after = all(not cfg.path_avoiding(t.id, s, []) for s in steps)
-        ok = shape and passes and after
-        facts = f"test `{A.src(t.ast)}`; every path step->return passes its false branch: {passes}; no knob-moving step after it: {after}"
-    col.add("C09.R1", f"{q}#returns-only-within-tolerance", ok, cx.loc(asserting[0].id) if asserting else cx.loc(cx.fn),
-            "every normally returning path of solve passes, after the last step, the test `assert_within_tol and not within tolerance` "
-            "on its non-raising branch", facts)
-    # nothing that moves knobs between the assertion and the return
-    if asserting:
-        fb = [b.id for b in cfg.nodes.values() if b.kind == "F" and b.of == asserting[0].id][0]
-        later = [r for r in cfg.reachable(fb) if cfg.nodes[r].kind == "stmt" and any(
-            is_self_call(c) and c.func.attr in ("step", "reload", "set_knobs_from_x", "run_jacobian", "_clip_to_limits") for c in cx.calls_at(r))
-            and not any(cfg.nodes[h].kind == "except" and r in cfg.reachable(h) for h in cfg.nodes)]
-        col.add("C09.R1", f"{q}#no-knob-change-after-assertion", not later, cx.loc(later[0]) if later else cx.loc(cx.fn),
-                "nothing moves the knobs between the tolerance assertion and the normal return", f"{[cx.loc(l) for l in later]}")
-    tries = [n for n in A.walk(cx.fn) if isinstance(n, ast.Try)]
+        if n.kind in ("T", "F") and n.ast is not None and not isinstance(n.ast, (ast.For, ast.AsyncFor)):
+            c = S.norm_cond(n.kind == "T", sx.sym.of(n.ast, n.of))
+            parts = set(c[2]) if (c[:1] == ("bool",) and c[1] == "or") else {c}
+            if parts and parts <= {("uop", "not", ASSERT), FLAG}:
+                good.append(n.id)
+    passes = bool(good) and all(cfg.must_pass(s, cfg.EXIT, good) for s in steps)
+    after = all(not cfg.path_avoiding(g, s, []) for g in good for s in steps)
+    col.add("C09.R1", f"{q}#returns-only-within-tolerance", passes and after, sx.loc(good[0]) if good else sx.loc(sx.fn),
+            "every normally returning path of solve passes, after the last step, a branch on which `not assert_within_tol or within "
+            "tolerance` holds (the other branch raises)",
+            f"{len(good)} such branches; every path step->return passes one: {passes}; no step after them: {after}")
+    movers = ("step", "reload", "set_knobs_from_x", "run_jacobian", "_clip_to_limits", "run_simplex", "run_direct")
+    later = []
+    for g in good:
+        reach = cfg.reachable(g)
+        for ev, m in sx.calls_some(("call", ("attr", S.SELF, S.V("m", lambda t: t in movers)), S.ANY, S.ANY)):
+            if ev.nid in reach and ev.nid not in hnodes:
+                later.append(ev.nid)
+    col.add("C09.R1", f"{q}#no-knob-change-after-assertion", not later, sx.loc(later[0]) if later else sx.loc(sx.fn),
+            "nothing moves the knobs between the tolerance assertion and the normal return", f"{[sx.loc(l) for l in later]}")
+    tries = [n for n in A.walk(sx.fn) if isinstance(n, ast.Try)]
     in_try = bool(tries) and all(any(x is cfg.nodes[s].ast for st in tries[0].body for x in A.walk(st)) for s in steps)
-    col.add("C09.R1", f"{q}#step-inside-try", in_try, cx.loc(steps[0]), "the stepping happens inside the try block whose handler restores", "")
-    # handler
+    col.add("C09.R1", f"{q}#step-inside-try", in_try, sx.loc(steps[0]), "the stepping happens inside the try block whose handler restores", "")
     if not tries or len(tries[0].handlers) != 1:
-        col.fail("C09.R2", f"{q}#handler", cx.loc(cx.fn), "solve has exactly one exception handler around the stepping", "")
+        col.fail("C09.R2", f"{q}#handler", sx.loc(sx.fn), "solve has exactly one exception handler around the stepping", "")
         return
     h = tries[0].handlers[0]
     broad = h.type is None or A.dotted(h.type) in ("Exception", "BaseException")
-    col.add("C09.R2", f"{q}#handler-catches-Exception", broad, cx.module.loc(h),
+    col.add("C09.R2", f"{q}#handler-catches-Exception", broad, sx.cx.module.loc(h),
             "the handler catches every exception of the stepping (limit violations, user action errors, the tolerance RuntimeError)",
             f"except {A.src(h.type) if h.type else '<bare>'}")
-    col.add("C09.R2", f"{q}#handler-reraises", handler_reraises(cx, h), cx.module.loc(h), "the handler re-raises on every path", "")
-    rl = [nid for nid in cx.call_nodes(lambda c: is_self_call(c, "reload")) if any(x is cfg.nodes[nid].ast for st in h.body for x in A.walk(st))]
-    ok = len(rl) == 1
-    facts = ""
+    col.add("C09.R2", f"{q}#handler-reraises", handler_reraises(sx.cx, h), sx.cx.module.loc(h), "the handler re-raises on every path", "")
+    RESTORE = S.sattr("restore_if_fail")
+    rl = [(ev, m) for ev, m in sx.calls_some(("call", ("attr", S.SELF, "reload"), S.V("a"), S.V("k"))) if ev.nid in hnodes]
+    ok, facts = len(rl) == 1, f"{len(rl)} reload calls in the handler"
     if ok:
-        c = cx.calls_at(rl[0], lambda c: is_self_call(c, "reload"))[0]
-        it = [k.value for k in c.keywords if k.arg == "iteration"] + c.args[:1]
-        ok = len(it) == 1 and A.is_const(it[0], 0)
-        gs = [g for g in cfg.guards(rl[0]) if g.kind in ("T", "F") and not isinstance(g.ast, ast.For) and g.of is not None
-              and any(x is cfg.nodes[g.of].ast for st in h.body for x in A.walk(st))]
-        ok = ok and len(gs) == 1 and gs[0].kind == "T" and A.src(gs[0].ast) == "self.restore_if_fail"
-        facts = f"{A.src(c)} under {[A.src(g.ast) for g in gs]}"
-        # reload precedes the re-raise on the restoring path
-    col.add("C09.R2", f"{q}#restores-iteration-0", ok, cx.loc(rl[0]) if rl else cx.module.loc(h),
+        ev, m = rl[0]
+        it = list(m["a"][:1]) + [v for k_, v in m["k"] if k_ == "iteration"]
+        conds = [c for c in sx.conds(ev.nid)]
+        ok = it == [("const", "0")] and conds == [RESTORE]
+        facts = f"{S.show(ev.term)} under {[S.show(c) for c in conds]}"
+        # every handler path with restore_if_fail set passes the reload before it leaves
+        for b in sx.branches(RESTORE):
+            if b in hnodes and cfg.path_avoiding(b, cfg.RAISE, [ev.nid]):
+                ok, facts = False, facts + "; a handler path with restore_if_fail set leaves without reloading"
+    col.add("C09.R2", f"{q}#restores-iteration-0", ok, sx.loc(rl[0][0]) if rl else sx.cx.module.loc(h),
             "the handler reloads iteration 0 of the log exactly when restore_if_fail is set", facts)
-    # solver.x seeded from current knobs before stepping
-    seed = [n.id for n in cfg.nodes.values() if n.kind == "stmt" and isinstance(n.ast, ast.Assign) and A.dotted(n.ast.targets[0]) == "self.solver.x"]
-    ok = len(seed) == 1 and all(cfg.dominates(seed[0], s) for s in steps) and "self._extract_knob_values()" in A.src(cfg.nodes[seed[0]].ast)
-    col.add("C09.R2", f"{q}#solver-seeded-from-current-knobs", ok, cx.loc(seed[0]) if seed else cx.loc(cx.fn),
-            "the solver starts from the knob values currently in the containers", "")
+    # nothing that can fail runs in the handler before the restore
+    before = []
+    if rl:
+        for ev in sx.events:
+            if ev.kind == "call" and ev.nid in hnodes and ev.nid != rl[0][0].nid and not _is_quiet(ev.term):
+                if any(cfg.path_avoiding(hh, ev.nid, [rl[0][0].nid]) for hh in handlers) and cfg.path_avoiding(ev.nid, rl[0][0].nid, []):
+                    before.append(S.show(ev.term)[:60])
+    col.add("C09.R2", f"{q}#restore-before-anything-that-can-fail", not before, sx.cx.module.loc(h),
+            "in the handler the knobs are restored before any other operation that may itself raise (re-evaluating the model at the "
+            "failed point, logging it, ...): a second failure must not prevent the restore", str(before))
+    seed = [e for e in sx.of_kind("store") if e.target == ("attr", S.sattr("solver"), "x")]
+    want = S.mcall(ERR, "_knobs_to_x", S.mcall(S.SELF, "_extract_knob_values"))
+    ok = len(seed) == 1 and all(cfg.dominates(seed[0].nid, s) for s in steps) and seed[0].value == want
+    col.add("C09.R2", f"{q}#solver-seeded-from-current-knobs", ok, sx.loc(seed[0]) if seed else sx.loc(sx.fn),
+            "the solver starts from the knob values currently in the containers", S.show(seed[0].value) if seed else "")
+
+
+def _is_boolflag(t) -> bool:
+    return all(a in (("const", "True"), ("const", "False")) for a in S.alts(t))
 
 
 def _flag(col):
     repo = col.repo
-    cx = fnctx(repo, "MeritFunctionForMatch", "__call__")
-    cfg = cx.cfg
+    sx = octx(repo, "MeritFunctionForMatch", "__call__")
+    cfg = sx.cfg
+    R = cfg.refined
     q = "MeritFunctionForMatch.__call__"
-    sets = [n for n in cfg.nodes.values() if n.kind == "stmt" and isinstance(n.ast, ast.Assign) and A.dotted(n.ast.targets[0]) == "self.last_point_within_tol"]
-    fresh = bool(sets) and cfg.must_pass(cfg.ENTRY, cfg.EXIT, [s.id for s in sets])
-    col.add("C09.R3", f"{q}#flag-assigned-on-every-path", fresh, cx.loc(sets[0].id) if sets else cx.loc(cx.fn),
+    F = S.sattr("last_point_within_tol")
+    sets = [e for e in sx.of_kind("store") if e.target == F]
+    fresh = bool(sets) and R.must_pass(cfg.ENTRY, cfg.EXIT, [e.nid for e in sets])
+    col.add("C09.R3", f"{q}#flag-assigned-on-every-path", fresh, sx.loc(sets[0]) if sets else sx.loc(sx.fn),
             "every normally returning evaluation assigns last_point_within_tol (the flag always describes the evaluation that just happened, "
             "also when an action failed)", f"{len(sets)} assignments")
-    # who else writes the flag
     others = []
     for m, c, fn in repo.all_functions():
-        if fn is cx.fn:
+        if c is not None and c.name == "MeritFunctionForMatch" and fn.name == "__call__":
             continue
+        if c is not None and c.name == "MeritFunctionForMatch" and fn.name.startswith("_") and not fn.name.startswith("__"):
+            continue    # private helpers of the evaluation are inlined above
         for n in A.walk(fn):
             if isinstance(n, (ast.Assign, ast.AugAssign)):
                 for t in (n.targets if isinstance(n, ast.Assign) else [n.target]):
-                    if flag_attr(t):
+                    if isinstance(t, ast.Attribute) and t.attr == "last_point_within_tol":
                         others.append(f"{m.loc(n)} {(c.name + '.') if c else ''}{fn.name}")
     col.add("C09.R3", "package#flag-written-only-by-the-evaluation", not others, "xdeps/optimize/", "no other function writes the flag", str(others))
-    trues = [s for s in sets if A.is_const(s.ast.value, True)]
-    falses = [s for s in sets if A.is_const(s.ast.value, False)]
-    weird = [s for s in sets if s not in trues and s not in falses]
-    col.add("C09.R4", f"{q}#flag-values", bool(trues) and bool(falses) and not weird, cx.loc(cx.fn), "the flag is set to the constants True / False", "")
-    for s in trues:
-        gs = [g for g in cfg.guards(s.id) if not isinstance(g.ast, ast.For)]
-        uni = [g for g in gs if g.kind == "T" and isinstance(g.ast, ast.Call) and A.call_name(g.ast) in ("np.all", "numpy.all", "all")]
-        ok = len(uni) == 1
-        facts = f"guards: {[g.kind + ':' + A.src(g.ast)[:50] for g in gs]}"
-        wt = None
+    # the solver's evaluation really evaluates: the flag is refreshed by every eval
+    ex = octx(repo, "JacobianSolver", "eval")
+    xp = ex.P(0)
+    calls = [ev.nid for ev, m in ex.calls_some(("call", ("attr", S.SELF, "func"), (xp,), ()))]
+    rets = ex.of_kind("return")
+    really = bool(calls) and ex.cfg.must_pass(ex.cfg.ENTRY, ex.cfg.EXIT, calls)
+    fresh_ret = bool(rets) and all(S.match(a, ("tuple", (S.mcall(S.SELF, "func", xp), S.ANY))) is not None for r in rets for a in S.alts(r.value))
+    col.add("C09.R3", "JacobianSolver.eval#calls-the-merit-function-on-every-path", really and fresh_ret, ex.loc(ex.fn),
+            "every evaluation by the solver calls the merit function (which refreshes the within-tolerance flags and runs the model) "
+            "and returns that very result: nothing is answered from a remembered evaluation",
+            f"calls of self.func(x) on every path: {really}; returned residuals are that call's: {fresh_ret}")
+    trues = [e for e in sets if e.value == ("const", "True")]
+    falses = [e for e in sets if e.value == ("const", "False")]
+    weird = [e for e in sets if e not in trues and e not in falses]
+    col.add("C09.R4", f"{q}#flag-values", bool(trues) and bool(falses) and not weird, sx.loc(sx.fn), "the flag is set to the constants True / False", "")
+    mask = S.sattr("mask_output")
+    for e in trues:
+        conds = sx.conds(e.nid)
+        uni = [c for c in conds if S.is_call_of(c) and c[1] in (("attr", ("glob", "np"), "all"), ("glob", "all"), ("attr", ("glob", "numpy"), "all"))]
+        ok, within = len(uni) == 1, None
         if ok:
-            arg = uni[0].ast.args[0]
-            ok = isinstance(arg, ast.BinOp) and isinstance(arg.op, ast.BitOr)
+            arg = uni[0][2][0] if uni[0][2] else None
+            ok = arg is not None and arg[:1] == ("op",) and arg[1] == "|"
             if ok:
-                sides = [arg.left, arg.right]
-                inactive = [x for x in sides if A.src(x) in ("~self.mask_output", "(~self.mask_output)")]
-                within = [x for x in sides if x not in inactive]
-                ok = len(inactive) == 1 and len(within) == 1
-                wt = within[0] if ok else None
-        col.add("C09.R4", f"{q}#true-only-under-universal-test", ok, cx.loc(s.id),
-                "the flag becomes True only under np.all(within-tolerance | inactive-target)", facts)
-        other_conds = [g for g in gs if g not in uni and not (g.kind == "F" and A.dotted(g.ast) == "failed") and not (g.kind == "T" and A.src(g.ast) == "not failed")]
-        col.add("C09.R4", f"{q}#no-extra-condition-for-true", not other_conds, cx.loc(s.id),
-                "no other condition stands between a matched evaluation and the flag", f"{[A.src(g.ast) for g in other_conds]}")
-        if wt is not None:
-            tn = uni[0].of
-            w = cx.resolve(wt, tn)
-            p = A.compare_parts(w)
-            okw = bool(p) and isinstance(p[1], (ast.Lt, ast.LtE)) and isinstance(p[0], ast.Call) and A.call_name(p[0]) in ("np.abs", "abs", "numpy.abs")
-            facts = A.src(w)
+                sides = [arg[2], arg[3]]
+                inactive = [x for x in sides if x == ("uop", "~", mask)]
+                rest = [x for x in sides if x not in inactive]
+                ok = len(inactive) == 1 and len(rest) == 1
+                within = rest[0] if ok else None
+        col.add("C09.R4", f"{q}#true-only-under-universal-test", ok, sx.loc(e),
+                "the flag becomes True only under np.all(within-tolerance | inactive-target)", f"conditions: {[S.show(c)[:70] for c in conds]}")
+        other = [c for c in conds if c not in uni and not (c[:1] == ("uop",) and c[1] == "not" and _is_boolflag(c[2])) and not _is_boolflag(c)]
+        col.add("C09.R4", f"{q}#no-extra-condition-for-true", not other, sx.loc(e),
+                "no other condition stands between a matched evaluation and the flag", f"{[S.show(c)[:70] for c in other]}")
+        if within is not None:
+            okw = within[:1] == ("cmp",) and within[1] in ("<", "<=") and S.is_call_of(within[2]) and \
+                within[2][1] in (("attr", ("glob", "np"), "abs"), ("glob", "abs"), ("attr", ("glob", "numpy"), "abs"))
+            col.add("C09.R4", f"{q}#within-tolerance-comparison", okw, sx.loc(e), "within tolerance means |residual| < tol", S.show(within)[:100])
             if okw:
-                errn = p[0].args[0]
-                toln = p[2]
-                wdef = [d for d in cx.defs(wt.id, tn) if d.kind == "assign"] if isinstance(wt, ast.Name) else []
-                at = wdef[0].nid if wdef else tn
-                # residual provenance
-                if isinstance(errn, ast.Name):
-                    ds = cx.defs(errn.id, at)
-                    strong = [d for d in ds if d.kind == "assign"]
-                    weak = [d for d in ds if d.kind in ("aug", "store", "mutcall")]
-                    okr = len(strong) == 1 and isinstance(strong[0].value, ast.BinOp) and isinstance(strong[0].value.op, ast.Sub) and not weak
-                    fr = f"residual `{errn.id}` defined by {[A.src(d.value)[:50] for d in strong]}, modified in place before the test by {[A.src(d.stmt)[:40] for d in weak]}"
-                    if okr:
-                        lhs = cx.resolve(strong[0].value.left, strong[0].nid)
-                        rhs = strong[0].value.right
-                        # rhs = target values; lhs = (transformed) results: no weight involved
-                        wmention = [n for n in A.walk(strong[0].value) if isinstance(n, ast.Attribute) and n.attr == "weight"]
-                        okr = not wmention
-                else:
-                    okr, fr = False, f"residual expression {A.src(errn)}"
-                col.add("C09.R4", f"{q}#tolerance-test-on-unweighted-residual", okr, cx.loc(at),
+                res = within[2][2][0]
+                okr = all(a[:1] == ("op",) and a[1] == "-" for a in S.alts(res)) and \
+                    not S.contains(res, lambda t: t[:1] == ("attr",) and t[2] == "weight") and \
+                    S.contains(res, lambda t: t[:1] == ("attr",) and t[2] == "value")
+                col.add("C09.R4", f"{q}#tolerance-test-on-unweighted-residual", okr, sx.loc(e),
                         "the residual compared with the tolerances is (transformed result - target value), not rescaled (weights, zeroing) "
-                        "between its definition and the comparison", fr)
-                if isinstance(toln, ast.Name):
-                    ds = cx.defs(toln.id, at)
-                    st = [d for d in ds if d.kind == "store"]
-                    okt = any("tol" in A.src(d.stmt) and ".tol" in A.src(d.stmt) for d in st) and not [d for d in ds if d.kind == "aug"]
-                    col.add("C09.R4", f"{q}#tolerances-from-targets", okt, cx.loc(at), "the tolerances compared are the targets' own `tol`", str(ds)[:120])
-            col.add("C09.R4", f"{q}#within-tolerance-comparison", okw, cx.loc(s.id), "within tolerance means |residual| < tol", facts)
-    # failed path: residual vector huge, flag False
-    for s in falses:
-        pass
-    col.add("C09.R4", f"{q}#false-on-failed-action", any(has_guard(cfg, s.id, "T", lambda t: A.dotted(t) == "failed") for s in falses), cx.loc(cx.fn),
+                        "before the comparison", S.show(res)[:120])
+    tol_stores = [e for e in sx.of_kind("store") if e.value is not None and e.value[:1] == ("attr",) and e.value[2] == "tol"
+                  and e.value[1] == ("elem", S.sattr("targets"))]
+    col.add("C09.R4", f"{q}#tolerances-from-targets", bool(tol_stores), sx.loc(tol_stores[0]) if tol_stores else sx.loc(sx.fn),
+            "the tolerances compared are the targets' own `tol`", "")
+    col.add("C09.R4", f"{q}#false-on-failed-action", any(any(_is_boolflag(c) for c in sx.conds(e.nid)) for e in falses), sx.loc(sx.fn),
             "an evaluation whose action failed is not within tolerance", "")
 
 
 def check_reload(col, rule="C09.R5"):
     repo = col.repo
-    cx = fnctx(repo, "Optimize", "reload")
-    cfg = cx.cfg
+    sx = octx(repo, "Optimize", "reload")
+    cfg = sx.cfg
     q = "Optimize.reload"
-    it = A.params(cx.fn)[1]
-    stores = [n for n in cfg.nodes.values() if n.kind == "stmt" and isinstance(n.ast, ast.Assign) and isinstance(n.ast.targets[0], ast.Subscript)
-              and A.src(n.ast.targets[0].value).endswith(".container") and A.src(n.ast.targets[0].slice).endswith(".name")]
-    ok = len(stores) == 1
-    facts = f"{len(stores)} direct knob stores"
-    if ok:
-        s = stores[0]
-        loops = [g for g in cfg.guards(s.id) if g.kind == "T" and isinstance(g.ast, ast.For)]
-        conds = cfg.cond_guards(s.id)
-        ok = len(loops) == 1 and not conds and isinstance(loops[0].ast.iter, ast.Call) and A.call_name(loops[0].ast.iter) == "zip" and \
-            A.src(loops[0].ast.iter.args[0]) == "self.vary"
-        facts = f"loop {A.src(loops[0].ast.iter) if loops else None}; conditions {[A.src(g.ast) for g in conds]}"
-        if ok:
-            tv = A.target_names(loops[0].ast.target)
-            ok = A.dotted(s.ast.value) in tv[1:] and A.src(s.ast.targets[0].value) == f"{tv[0]}.container"
-            kv = loops[0].ast.iter.args[1]
-            kvr = cx.resolve(kv, loops[0].of)
-            ok = ok and A.src(kvr) == f"self._log['knobs'][{it}]"
-            facts += f"; values from {A.src(kvr)}"
-    col.add(rule, f"{q}#every-knob-written-unconditionally", ok, cx.loc(stores[0].id) if stores else cx.loc(cx.fn),
+    it = sx.pnamed("iteration")
+    V = ("elem", S.sattr("vary"))
+    T = ("elem", S.sattr("targets"))
+
+    def row(key):
+        return ("sub", ("sub", LOG, ("const", repr(key))), S.V("it"))
+
+    def it_ok(t):
+        return it in S.alts(t)
+    knob_target = ("sub", ("attr", V, "container"), ("attr", V, "name"))
+    stores = [e for e in sx.of_kind("store") if e.target == knob_target]
+    ok, facts = bool(stores), f"{len(stores)} direct knob stores"
+    if not stores:
+        via = [S.show(ev.term)[:80] for ev, m in sx.calls_some(("call", ("attr", S.SELF, S.V("m", lambda t: t in ("set_knobs_from_x", "_set_knobs"))), S.ANY, S.ANY))]
+        via += [S.show(ev.term)[:80] for ev, m in sx.calls_some(("call", ("attr", ERR, S.V("m")), S.ANY, S.ANY)) if "knob" in m["m"] or m["m"] == "__call__"]
+        if not via:
+            raise AnalysisError(f"{q}: no store of a knob value found -- cannot decide")
+        facts = f"the knobs are written through {via} (which writes active knobs only), not directly"
+    for e in stores:
+        m = S.match(e.value, ("elem", row("knobs")))
+        if m is None or not it_ok(m["it"]):
+            ok, facts = False, f"value {S.show(e.value)[:100]}"
+        elif sx.conds(e.nid):
+            ok, facts = False, f"only under {[S.show(c) for c in sx.conds(e.nid)]}"
+        elif S.sattr("vary") not in sx.sym.loops(e.nid) and not any(S.is_call_of(l, ("glob", "zip")) and S.sattr("vary") in l[2] for l in sx.sym.loops(e.nid)):
+            ok, facts = False, "not in a loop over self.vary"
+    col.add(rule, f"{q}#every-knob-written-unconditionally", ok, sx.loc(stores[0]) if stores else sx.loc(sx.fn),
             "reload writes the logged value of every knob -- active or not -- straight into its container", facts)
-    for what, key, attr_owner in (("vary", "vary_active", "self.vary"), ("target", "target_active", "self.targets")):
-        sets = [n for n in cfg.nodes.values() if n.kind == "stmt" and isinstance(n.ast, ast.Assign) and isinstance(n.ast.targets[0], ast.Attribute)
-                and n.ast.targets[0].attr == "active"]
-        okf = False
-        for s in sets:
-            loops = [g for g in cfg.guards(s.id) if g.kind == "T" and isinstance(g.ast, ast.For)]
-            conds = cfg.cond_guards(s.id)
-            if len(loops) == 1 and not conds and isinstance(loops[0].ast.iter, ast.Call) and A.src(loops[0].ast.iter.args[0]) == attr_owner:
-                mask = cx.resolve(loops[0].ast.iter.args[-1], loops[0].of)
-                if f"self._log['{key}'][{it}]" in A.src(mask):
-                    okf = True
-        col.add(rule, f"{q}#{what}-flags-from-same-row", okf, cx.loc(cx.fn),
+    for what, key, E in (("vary", "vary_active", V), ("target", "target_active", T)):
+        sets = [e for e in sx.of_kind("store") if e.target == ("attr", E, "active")]
+        okf = bool(sets)
+        for e in sets:
+            src = [s_ for s_ in S.subterms(e.value) if S.match(s_, row(key)) is not None and it_ok(S.match(s_, row(key))["it"])]
+            if not src or sx.conds(e.nid):
+                okf = False
+        col.add(rule, f"{q}#{what}-flags-from-same-row", okf, sx.loc(sets[0]) if sets else sx.loc(sx.fn),
                 f"the {what} active flags are restored, for every {what}, from the same log row", "")
-    # the iteration is validated / derived from a tag
-    col.add(rule, f"{q}#logs-the-restored-point", bool(cx.call_nodes(lambda c: is_self_call(c, "add_point_to_log"))), cx.loc(cx.fn),
+    col.add(rule, f"{q}#logs-the-restored-point", bool(sx.calls_some(("call", ("attr", S.SELF, "add_point_to_log"), S.ANY, S.ANY))), sx.loc(sx.fn),
             "after restoring, the point is logged (re-evaluated)", "")
-    reb = [d for nid in cfg.nodes for d in cx.rd.defs.get(nid, []) if d.name == it and d.kind == "assign"]
-    okr = all(has_guard(cfg, d.nid, "T", lambda t: A.src(t) == "tag is not None") for d in reb)
-    col.add(rule, f"{q}#iteration-as-given", okr, cx.loc(cx.fn), "the row reloaded is the one asked for (derived from the tag only when a tag is given)", "")
-    asserts = [n for n in A.walk(cx.fn) if isinstance(n, ast.Assert) and it in A.names_loaded(n.test) and "len" in A.src(n.test)]
-    col.add(rule, f"{q}#iteration-in-range", bool(asserts), cx.loc(cx.fn), "the iteration is checked against the log length", "")
+    tag = sx.pnamed("tag") if "tag" in sx.sym.params else None
+    reb = [nid for nid in cfg.nodes for d in sx.cx.rd.defs.get(nid, []) if d.name == it[2] and d.kind == "assign"]
+    okr = all(tag is not None and sx.under(n, ("cmp", "is not", tag, ("const", "None"))) for n in reb)
+    col.add(rule, f"{q}#iteration-as-given", okr, sx.loc(sx.fn), "the row reloaded is the one asked for (derived from the tag only when a tag is given)", "")
+    rng = False
+    for n in cfg.nodes.values():
+        if n.kind == "test" and n.from_assert:
+            t = sx.sym.of(n.ast, n.id)
+            for c in S.conjuncts(S.norm_cond(True, t)):
+                if c[:1] == ("cmp",) and c[1] in ("<", "<=") and it_ok(c[2]) and S.is_call_of(c[3], ("glob", "len")):
+                    rng = True
+    col.add(rule, f"{q}#iteration-in-range", rng, sx.loc(sx.fn), "the iteration is checked against the log length", "")
 
 
 def check(col: Collector):
